@@ -299,9 +299,9 @@ Definition comp_run (fl : flags) (k : comp) (args dphi : nat) : comp * nat * nat
   let stored := match args with 0 => k_args k | S _ => if f_compile_args_local fl then k_args k else args end in
   (mkComp (k_gp0 k) gp (k_args0 k) stored, eff, gp).
 
-Definition new_pulses (n eff : nat) : list pulse := map (fun i => mkPulse (1 + i + 16 * eff) 0 0) (seq 0 n).
+Definition new_pulses (n eff : nat) : list pulse := map (fun i => mkPulse (1 + eff) 0 0) (seq 0 n).
 
-Definition pulses_digest (ps : list pulse) : nat := fold_right (fun p a => pl_fn p + 7 * pl_noise p + 3 * a) 0 ps.
+Definition pulses_digest (ps : list pulse) : nat := fold_right (fun p a => pl_fn p + 2 * pl_noise p + a) 0 ps.
 Definition pview (p : proc) : list (nat * nat) * nat * nat := (map (fun q => (pl_fn q, pl_noise q)) (p_pulses p), p_gp p, p_nnoise p).
 
 Definition add_noise_to (k : nat) (ps : list pulse) : list pulse :=
